@@ -71,6 +71,17 @@ def secrets(seed, k):
     out[0] = base[0].to_bytes(32, "big") + out[0][32:]
     return out
 
+# one further assignment per API whose auxiliary secret (s2c data, MuSig extra input, BIP-340 / adaptor auxiliary randomness) is
+# ALL-ZERO: a legal value of a secret argument that random sampling never produces (slot numbers are SEC[] indices of ct_runner.c)
+AUXZERO = {"schnorrsig_sign": [1], "adaptor_encrypt": [1], "s2c_sign": [1], "anti_exfil_host_commit": [1], "anti_exfil_signer_commit": [1],
+           "musig_nonce_gen": [2]}
+def runs_of(api, k): return k + 1 if api in AUXZERO else k
+def secret_for(api, i, secs):
+    if i < len(secs): return secs[i]
+    b = bytearray(secs[1])
+    for slot in AUXZERO[api]: b[32 * slot: 32 * slot + 32] = bytes(32)
+    return bytes(b)
+
 def one_run(args):
     exe, marks, d, api, var, idx, sec = args
     secfile = "%s/secret.bin" % d      # fixed name (argv must be identical across runs); per-process dir
@@ -113,11 +124,11 @@ def run(chk):
     apis = QUICK_APIS if quick else sorted(APIS)
     secs = secrets(chk.seed, k)
     total_lines = 0
-    for variant in (["std", "i64"] if quick else ["std", "noasm", "i64"]):
+    for variant in (["std", "i64", "noasm"] if quick else ["std", "noasm", "i64"]):
         exe, marks, d = build_runner(chk, variant)
         # quick tier: the alternative limb configuration is recorded for the signing family only (scalar inverse, ecmult_gen, field code)
-        vapis = [a for a in apis if a in ("ecdsa_sign", "schnorrsig_sign", "adaptor_encrypt", "ecdh")] if (quick and variant != "std") else apis
-        jobs = [(exe, marks, d, api, var, i, secs[i]) for api in vapis for var in (APIS[api][:2] if quick else APIS[api]) for i in range(k)]
+        vapis = [a for a in apis if a in ("ecdsa_sign", "schnorrsig_sign", "adaptor_encrypt", "ecdh", "seckey_tweak_mul")] if (quick and variant != "std") else apis
+        jobs = [(exe, marks, d, api, var, i, secret_for(api, i, secs)) for api in vapis for var in (APIS[api][:2] if quick else APIS[api]) for i in range(runs_of(api, k))]
         with cf.ThreadPoolExecutor(max_workers=16) as ex:
             results = list(ex.map(one_run, jobs))
         # TLC validation (a rejection is reported only if it repeats after re-recording the offending API's runs)
@@ -156,7 +167,7 @@ def run(chk):
             if grp not in rerecorded:
                 # record that API's runs again: only a divergence that repeats is a violation
                 rerecorded.add(grp)
-                jobs2 = [(exe, marks, d, grp[0], grp[1], i, secs[i]) for i in range(k)]
+                jobs2 = [(exe, marks, d, grp[0], grp[1], i, secret_for(grp[0], i, secs)) for i in range(runs_of(grp[0], k))]
                 with cf.ThreadPoolExecutor(max_workers=16) as ex:
                     res2 = list(ex.map(one_run, jobs2))
                 if any(x[3] is None for x in res2): raise Infra("re-recording failed for %s" % (grp,))
